@@ -136,6 +136,7 @@ func runC19(r *engine.Run) {
 	r.Rule("AGREE-progression", "the three walks over the levels (size computation, builder, prover) step with the same expressions: next level size = ceil(size/2), next level offset = offset + size; verifier and prover halve the index the same way; the prover (which handles the leaf level before its loop) stops one level size later than the builder")
 	r.Rule("DOM-inlevel", "the prover reads the element after an even index only under the strict test that this element still lies inside the current level (index + 1 < level start + level size, with the level size the walk itself uses)")
 	r.Rule("DEP-offered", "verification recomputes the root from the offered leaf hash: VerifyMerklePath starts its running hash from its hash argument and compares the result with its root argument; VerifyPath hands it GetHash() of the offered node, the offered path and the tree's own root (a verifier that starts from the stored leaf only checks membership, so a path proves every leaf); that comparison is the only comparison of hash strings in the verifier (no other equality between path elements or running hashes decides acceptance); VerifyPath returns nothing but that verifier's result; neither verifier stores through its parameters (a path can be verified again)")
+	r.Rule("REF-poolput", "see C16: no object is touched after it was handed back to a sync.Pool, also not by a defer that was registered before a deferred Put (and therefore runs after it): every node of the tree and every step of the verifier is a RawHash, and a pooled hash state that is reset after another goroutine took it hashes that goroutine's input to the wrong digest")
 	r.Rule("PURE-query", "the queries of a built tree (GetPathByIndex, GetPath, GetLeafIndex, VerifyPath, GetRoot, GetTree) store nothing into the tree object or into memory reached through its fields: a query that fills a cache publishes a half-built entry to the goroutines asking at the same time (paths that do not verify, nil dereferences)")
 	r.Rule("REF-callerleaves", "ComputeTree keeps no reference to its argument slice in the tree object (it stores the leaf hashes, not the caller's leaf list): a lookup that consults the caller's slice answers with whatever the caller made of it since")
 	r.Rule("AGREE-shape", "ComputeTree and SetTree establish the same fields (at least leavesCount, levels, tree) from computeSize; a path has levels - 1 elements; the root is the last element of the tree")
@@ -157,6 +158,7 @@ func runC19(r *engine.Run) {
 	c19Pairing(r, verify, build, prove)
 	c19Progression(r, verify, build, prove, size)
 	c19Shape(r, build)
+	refPoolPut(r, "REF-poolput")
 	pureQuery(r, "PURE-query")
 	refCallerLeaves(r, "REF-callerleaves")
 	c19Offered(r, verify)
@@ -300,6 +302,31 @@ func c19Prover(r *engine.Run, prove *ssa.Function) {
 			})
 			if cnt >= 3 {
 				r.OK(rule, fn(prove)+"|sibling selection in a helper", r.P.Pos(g.Pos()), fmt.Sprintf("the prover's %d tree reads live in %s, written over that helper's parameters: the pairing arithmetic is not judged in this shape (the rule's normal form is the inline selection)", cnt, fn(g)))
+				return
+			}
+		}
+		// ... or the helper computes the sibling's POSITION and the prover reads the tree there
+		group := opGroup(r, prove)
+		for _, rd := range reads {
+			var viaHelper *ssa.Function
+			var walk func(v ssa.Value, d int)
+			walk = func(v ssa.Value, d int) {
+				if d > 4 {
+					return
+				}
+				switch x := v.(type) {
+				case *ssa.BinOp:
+					walk(x.X, d+1)
+					walk(x.Y, d+1)
+				case *ssa.Call:
+					if g := x.Call.StaticCallee(); g != nil && g != prove && inGroup(group, g) {
+						viaHelper = g
+					}
+				}
+			}
+			walk(rd.idx.Index, 0)
+			if viaHelper != nil {
+				r.OK(rule, fn(prove)+"|sibling selection in a helper", r.P.Pos(viaHelper.Pos()), "the position of the sibling is computed by "+fn(viaHelper)+" over that helper's parameters: the pairing arithmetic is not judged in this shape (the rule's normal form is the inline selection)")
 				return
 			}
 		}
